@@ -16,6 +16,7 @@ Oracles
   fresh       two evaluations of one spec object return containers that are not the same object
 """
 import atexit
+import os
 import warnings
 
 from hypothesis import strategies as st
@@ -172,11 +173,13 @@ _FLOOD = [0]
 
 
 def server():
-    if not _SERVER:
+    # one reference server PER PROCESS: a shard forked after the parent has already talked to its server (replay files
+    # run in the parent) must not share that server's pipes with its siblings
+    if not _SERVER or _SERVER[0][0] != os.getpid():
         s = cold.ColdServer(boot.REPO)
-        _SERVER.append(s)
+        _SERVER[:] = [(os.getpid(), s)]
         atexit.register(s.close)
-    return _SERVER[0]
+    return _SERVER[0][1]
 
 
 def reachable_ids(v):
